@@ -1,0 +1,10 @@
+//go:build !verif
+
+package mqtt
+
+import "net"
+
+// Verification hooks compile to nothing without the "verif" build tag.
+func verifEv(string, ...int) {}
+func vb(bool) int            { return 0 }
+func vk(net.Conn) int        { return 0 }
